@@ -58,7 +58,7 @@ def main(sid, props):
         a = sh(['git', '-C', REPO, 'apply', os.path.join(d, 'patch.diff')]); assert a.returncode == 0, a.stdout
         for prop in props:
             t0 = time.time()
-            env = dict(os.environ, VERIF_MAX_REPORT='3')
+            env = dict(os.environ, VERIF_MAX_REPORT='3', VERIF_EVIDENCE_DIR=os.path.join(d, '.evidence-of-run-against-seed'))
             p = sh([os.path.join(VERIF, 'vcheck'), prop, 'quick'], cwd=VERIF, env=env)
             classes = [l.strip()[7:] for l in p.stdout.split('\n') if l.strip().startswith('class: ')]
             viol = [l for l in p.stdout.split('\n') if l.startswith('VIOLATION ')]
